@@ -10,7 +10,7 @@ from ..core import HarnessError, Violation
 
 ID = "C08"
 LEVEL = "exploration"
-RULE = ("exhaustive: 42 representative constrained nodes (every type; value, precision, bounds, lengths, alphabet, regex, list forms, dict forms, any, alias) x the whole zoo (70 objects) x 3 embeddings (alone, typed-list element, dict value); then Hypothesis draws any declarable SchemaSpec (depth<=3, satisfiable or not, float nodes with "
+RULE = ("exhaustive: 49 representative constrained nodes (every type; value, precision, bounds, lengths, alphabet, regex, list forms, dict forms, any, alias) x the whole zoo (70 objects) x 3 embeddings (alone, typed-list element, dict value); then Hypothesis draws any declarable SchemaSpec (depth<=3, satisfiable or not, float nodes with "
         "value+precision included) and a value from the hostile zoo (nan, +-inf, -0.0, ints beyond "
         "2**64 and 10**400, Decimal, Fraction, complex, tuples, sets, bytearray, memoryview, range, "
         "plain subclasses of int/float/str/bytes/list/dict, OrderedDict, defaultdict, UUID v1/3/5/nil, "
@@ -84,6 +84,19 @@ HOT_NODES = [
                               {"key": "%s{0}", "opt": False, "spec": {"t": "list", "form": "untyped", "len": ["max", 1]}}],
      "relaxed": False},
     {"t": "any"}, {"t": "any", "alts": [{"t": "int"}, {"t": "str", "len": ["eq", 1], "order": ["len"]}]},
+    # unions whose alternatives print with braces / percent signs in them (a mismatch error renders every alternative)
+    {"t": "any", "alts": [{"t": "dict", "entries": [{"key": "{id}", "opt": False, "spec": {"t": "int"}},
+                                                   {"key": "/users/{user_id}", "opt": True, "spec": {"t": "str"}}], "relaxed": False},
+                          {"t": "dict", "entries": [{"key": "}", "opt": False, "spec": {"t": "none"}},
+                                                   {"key": "%(x)s", "opt": False, "spec": {"t": "str", "value": "{0} %s {}"}}], "relaxed": True},
+                          {"t": "none"}]},
+    # a user-defined type that forwards to a built-in: at the root, behind an alias, inside a union
+    {"t": "custom", "spec": {"t": "int", "min": 0, "order": ["min"]}},
+    {"t": "custom", "own": True, "spec": {"t": "int", "min": 0, "order": ["min"]}},
+    {"t": "alias", "name": "Own", "spec": {"t": "custom", "own": True, "spec": {"t": "dict", "entries": [], "relaxed": True}}},
+    {"t": "custom", "spec": {"t": "dict", "entries": [{"key": "a", "opt": False, "spec": {"t": "int"}}], "relaxed": False}},
+    {"t": "alias", "name": "Custom", "spec": {"t": "custom", "spec": {"t": "list", "form": "typed", "elem": {"t": "str"}}}},
+    {"t": "any", "alts": [{"t": "custom", "spec": {"t": "str", "len": ["eq", 2], "order": ["len"]}}, {"t": "none"}]},
     {"t": "alias", "name": "A", "spec": {"t": "float", "value": 2.5, "precision": 1, "order": ["precision"]}},
 ]
 EXHAUSTIVE_COMPLETE = True
@@ -129,7 +142,10 @@ def check(case, ctx):
         ctx.skip_undeclarable(None, e)
         return
     v = values.realize(case["value"])
-    desc = f"validate({S!r}, <{case['value']!r}>)"
+    try:
+        desc = f"validate({S!r}, <{case['value']!r}>)"
+    except Exception as e:  # noqa  (printing is C06's business; the case goes on)
+        desc = f"validate(<unprintable {type(S).__name__}: {type(e).__name__}>, <{case['value']!r}>)"
     try:
         res = validate(S, v)
     except Exception as e:  # noqa
